@@ -131,6 +131,22 @@ func c12cMutexParked(blk string) bool {
 	return strings.HasPrefix(st, "sync.Mutex.Lock") || strings.HasPrefix(st, "semacquire")
 }
 
+// c12cLockCaller: the function that called the sync.Mutex.Lock a goroutine is
+// parked in.
+func c12cLockCaller(blk string) string {
+	lines := strings.Split(blk, "\n")
+	for i, ln := range lines {
+		if strings.HasPrefix(ln, "sync.(*Mutex).Lock") {
+			for j := i + 1; j < len(lines); j++ {
+				if !strings.HasPrefix(lines[j], "\t") {
+					return lines[j]
+				}
+			}
+		}
+	}
+	return ""
+}
+
 // c12cClassify: where a request's goroutine is.
 func c12cClassify(blk string) int {
 	if !c12cMutexParked(blk) {
@@ -1053,6 +1069,152 @@ func c12Concurrent(t *testing.T, out *vfOut, rnd *vfRand, users []webUser) {
 		do(sp)
 	}
 	out.Note("concurrent_trials", map[string]int{"judged": ran, "dropped_or_unsettled": dropped})
+
+	// round 7: simultaneous logins from one address
+	for _, lk := range [][2]int{{3, 10}, {1, 4}, {3, 4}, {2, 2}, {5, 3}, {3, 1}} {
+		c12LoginBurst(t, out, users, uint(lk[0]), lk[1])
+	}
+	for i := 0; i < out.Scale(6, 60); i++ {
+		r := rnd.Fork(uint64(500000 + i))
+		c12LoginBurst(t, out, users, uint(1+r.Intn(5)), 1+r.Intn(12))
+	}
+}
+
+// ---------------------------------------------------------------------------
+// Round 7: simultaneous logins from one address.
+//
+// handleLogin asks the limiter (check) before the password is evaluated and
+// counts the failure (inc) only afterwards: two separate critical sections.
+// Only ensure's control lock, held around the whole handler for POST, makes k
+// simultaneous attempts equal to a sequential history.  The burst is made
+// simultaneous without a clock: the harness holds a.lock, which findUser
+// needs, starts k wrong-password POSTs through the REGISTERED chain of
+// /control/login, waits until every request is parked (inside ensure on the
+// control lock, or inside findUser), records how many are where, and lets go.
+// Verdict: the number of 403 (= passwords evaluated) is at most the limit; if
+// all requests happened to come one after the other the case is weak, never
+// wrong.
+func c12LoginBurst(t *testing.T, out *vfOut, users []webUser, limit uint, k int) {
+	const block = 15 * time.Minute
+	dir := t.TempDir()
+	auth := InitAuth(filepath.Join(dir, "sessions.db"), users, 3600, newAuthRateLimiter(block, limit), netutil.SliceSubnetSet(nil))
+	if auth == nil {
+		t.Fatal("InitAuth failed")
+	}
+	defer auth.Close()
+	oldAuth, oldMux, oldWeb, oldFirst := globalContext.auth, globalContext.mux, globalContext.web, globalContext.firstRun
+	defer func() {
+		globalContext.auth, globalContext.mux, globalContext.web, globalContext.firstRun = oldAuth, oldMux, oldWeb, oldFirst
+	}()
+	globalContext.auth, globalContext.mux, globalContext.web, globalContext.firstRun = auth, http.NewServeMux(), &webAPI{}, false
+	RegisterAuthHandlers()
+
+	type burstReq struct {
+		gid    int64
+		done   chan struct{}
+		status int
+	}
+	reqs := make([]*burstReq, k)
+	auth.lock.Lock() // findUser waits
+	for i := range reqs {
+		q := &burstReq{done: make(chan struct{})}
+		reqs[i] = q
+		gid := make(chan int64, 1)
+		go func() {
+			defer close(q.done)
+			gid <- c12cGID()
+			r := httptest.NewRequest(http.MethodPost, "/control/login", strings.NewReader(`{"name":"`+c12User+`","password":"wrong"}`))
+			r.Header.Set("Content-Type", "application/json")
+			r.RemoteAddr = "192.0.2.55:40000"
+			w := httptest.NewRecorder()
+			globalContext.mux.ServeHTTP(w, r)
+			q.status = w.Code
+		}()
+		q.gid = <-gid
+	}
+	// wait until every request is parked on the control lock or in findUser
+	atCtl, atEval, other := 0, 0, 0
+	settled := false
+	for start, iter := time.Now(), 0; time.Since(start) < 20*time.Second; iter++ {
+		dump := c12cDump()
+		atCtl, atEval, other = 0, 0, 0
+		for _, q := range reqs {
+			blk, ok := dump[q.gid]
+			switch {
+			case !ok:
+				other++ // answered already (a 400, a 429)
+			case !c12cMutexParked(blk):
+				atCtl = -1
+			case len(c12cAuthFrames(blk)) > 0 && c12cAuthFrames(blk)[0] == "findUser":
+				atEval++
+			case strings.Contains(c12cLockCaller(blk), "ensure.func1"):
+				atCtl++ // (the closure ensure returns; it takes no other lock)
+			default:
+				atCtl = -1 // the limiter's own mutex, the logger: somebody is running
+			}
+			if atCtl < 0 {
+				break
+			}
+		}
+		if atCtl >= 0 && atEval >= 1 {
+			settled = true
+			break
+		}
+		if atCtl >= 0 && atEval == 0 && other == k {
+			settled = true
+			break
+		}
+		if iter < 50 {
+			runtime.Gosched()
+		} else {
+			time.Sleep(200 * time.Microsecond) // polling pause only
+		}
+	}
+	auth.lock.Unlock()
+	monOK, monMsg, key := true, "", ""
+	for _, q := range reqs {
+		select {
+		case <-q.done:
+		case <-time.After(60 * time.Second):
+			monOK, monMsg, key = false, "a login request did not finish", "burst-stuck"
+		}
+	}
+	if !settled {
+		out.Class("burst-unsettled")
+		return
+	}
+	n403, n429, nOther := 0, 0, 0
+	for _, q := range reqs {
+		switch q.status {
+		case http.StatusForbidden:
+			n403++
+		case http.StatusTooManyRequests:
+			n429++
+		default:
+			nOther++
+		}
+	}
+	classes := []string{"burst-login"}
+	if atEval+other > 1 || atCtl == 0 && k > 1 {
+		classes = append(classes, "burst-not-serialised")
+	}
+	if atCtl == k-1 && atEval == 1 {
+		classes = append(classes, "burst-held-at-control-lock")
+	}
+	if n403 > int(limit) {
+		monOK, key = false, "burst-evaluated-beyond-limit"
+		monMsg = fmt.Sprintf("auth_attempts %d, %d simultaneous wrong-password POST /control/login from 192.0.2.55 through the registered chain (once all had arrived: %d waiting on the control lock inside ensure, %d inside findUser, %d answered): %d x 403 (password evaluated), %d x 429; at most %d may be evaluated",
+			limit, k, atCtl, atEval, other, n403, n429, limit)
+	} else if nOther > 0 {
+		monOK, key, monMsg = false, "burst-status", fmt.Sprintf("%d login attempts answered neither 403 nor 429", nOther)
+	}
+	out.Emit(vfCase{
+		Coq:        vfApp("C12.CLoginBurst", vfN(uint64(limit)), vfZ(int64(block)), vfN(uint64(k)), vfN(uint64(atCtl)), vfN(uint64(atEval)), vfN(uint64(n403)), vfN(uint64(n429))),
+		Nontrivial: n429 > 0 || n403 > int(limit),
+		Classes:    classes, MonitorOK: monOK, MonitorMsg: monMsg, FindingKey: key,
+		Desc: map[string]any{"kind": "login-burst", "auth_attempts": limit, "simultaneous": k, "waiting_on_control_lock": atCtl, "inside_findUser": atEval,
+			"answered_403": n403, "answered_429": n429},
+	})
 }
 
 // TestVerifC12Conc runs the concurrent part alone (development aid; the check
